@@ -10,7 +10,7 @@ from antismash.modules.tta import tta
 
 from .. import logic as L
 from .c04 import build, model_parts, shape_pre, shape_vars
-from .c10 import qual_value
+from .c10 import qual_value, tree_copy
 from .c13 import _Len
 from .common import Harness, canon_loc, cn, contains_parts, is_raised, mkrecord
 
@@ -251,3 +251,246 @@ class ModuleReload(BuildModules):
 
 
 HARNESSES = [RuleResults(), TTAReuse(), HmmerReuse(), ModuleReload()]
+
+
+class SideloadReuse(Harness):
+    """externally supplied (sideloaded) areas: annotations -> results -> JSON -> results -> JSON, and what each adds to a record"""
+    pid, name = "C11", "sideloaded"
+    SD = "antismash.detection.sideloader.data_structures:"
+    functions = [SD + "SideloadedResults.to_json", SD + "SideloadedResults.from_json", SD + "SideloadedResults.add_to_record",
+                 SD + "ProtoclusterAnnotation.from_json", SD + "ProtoclusterAnnotation.to_json", SD + "ProtoclusterAnnotation.to_secmet",
+                 SD + "ProtoclusterAnnotation.build_location", SD + "ProtoclusterAnnotation.build_core_location",
+                 SD + "SubRegionAnnotation.from_json", SD + "SubRegionAnnotation.to_json", SD + "SubRegionAnnotation.to_secmet",
+                 SD + "SubRegionAnnotation.build_location"]
+    bound = ("one protocluster annotation (core start / end, left and right neighbourhood) and one subregion annotation with symbolic "
+             "coordinates on a linear or circular record of symbolic length (on a circular record areas may run through the origin); "
+             "schema version symbolic")
+    outside = "the JSON schema validation of the user's file (jsonschema); free-text details"
+    stubs = []
+
+    def variants(self, tier):
+        return [{"circular": c} for c in (False, True)]
+
+    def vars(self, var):
+        return {"n": "int", "cs": "int", "ce": "int", "nl": "int", "nr": "int", "ss": "int", "se": "int", "schema": "int"}
+
+    def pre(self, var, v):
+        n = v["n"]
+        c = [n >= 10, 0 <= v["cs"], v["cs"] < n, 0 < v["ce"], v["ce"] <= n, 0 <= v["nl"], 0 <= v["nr"], 0 <= v["ss"], v["ss"] < n,
+             0 < v["se"], v["se"] <= n, 0 <= v["schema"], v["schema"] <= 2]
+        if not var["circular"]:
+            c += [v["cs"] < v["ce"], v["ss"] < v["se"], v["cs"] - v["nl"] >= 0, v["ce"] + v["nr"] <= n]
+        else:
+            # what a user may write for a ring: areas through the origin (start > end), neighbourhoods that do not meet themselves
+            c += [v["cs"] != v["ce"], v["ss"] != v["se"],
+                  v["nl"] + v["nr"] + L.If(v["cs"] < v["ce"], v["ce"] - v["cs"], n - v["cs"] + v["ce"]) < n]
+        return L.And(c)
+
+    def run(self, var, v):
+        from antismash.detection.sideloader.data_structures import ProtoclusterAnnotation, SideloadedResults, SubRegionAnnotation, Tool
+        n = v["n"]
+        origin = n if var["circular"] else None
+        tool = Tool("tool", "1.0", "a tool", {"param": ["x"]})
+        proto = ProtoclusterAnnotation(v["cs"], v["ce"], "product", tool, {"score": ["5"]}, v["nl"], v["nr"], circular_origin=origin)
+        sub = SubRegionAnnotation(v["ss"], v["se"], "label", tool, {"note": ["y"]}, circular_origin=origin)
+        original = SideloadedResults("rec", [sub], [proto])
+        saved = original.to_json()
+        stored = tree_copy(saved)
+        stored["schema_version"] = v["schema"]
+
+        def added(results):
+            rec = mkrecord(n, var["circular"])
+            rec.id = "rec"
+            results.add_to_record(rec)
+            return {"protoclusters": [(canon_loc(p.location), canon_loc(p.core_location), p.product, p.tool, cn(p.neighbourhood_range))
+                                      for p in rec.get_protoclusters()],
+                    "subregions": [(canon_loc(s.location), s.label, s.tool, sorted(s.extra_qualifiers.items())) for s in rec.get_subregions()]}
+        rec = mkrecord(n, var["circular"])
+        rec.id = "rec"
+        try:
+            reloaded = SideloadedResults.from_json(stored, rec)
+        except ValueError:
+            return {"reused": False}
+        return {"reused": True, "saved": saved, "again": reloaded.to_json(), "first": added(original), "second": added(reloaded),
+                "areas": [(a.kind, cn(a.start), cn(a.end)) for a in original.get_areas()],
+                "areas_again": [(a.kind, cn(a.start), cn(a.end)) for a in reloaded.get_areas()]}
+
+    def post(self, var, v, out):
+        if is_raised(out):
+            return [("no_raise", False)]
+        from antismash.detection.sideloader.data_structures import SideloadedResults
+        current = v["schema"] == SideloadedResults.schema_version
+        cl = [("other_schema_versions_are_refused", L.Iff(current, out["reused"]))]
+        if out["reused"]:
+            cl += [("saved_again_is_identical", tree_equal(out["saved"], out["again"])),
+                   ("same_areas_added_to_the_record", tree_equal(out["first"], out["second"])),
+                   ("same_area_order", tree_equal(out["areas"], out["areas_again"]))]
+        return cl
+
+
+HARNESSES = [RuleResults(), TTAReuse(), HmmerReuse(), ModuleReload(), SideloadReuse()]
+
+
+def _floats_as_text(tree):
+    """fixed floating point values are compared by their shortest text (what json.dumps writes)"""
+    if isinstance(tree, dict):
+        return {k: _floats_as_text(val) for k, val in tree.items()}
+    if isinstance(tree, (list, tuple)):
+        return [_floats_as_text(val) for val in tree]
+    if type(tree) is float:
+        return repr(tree)
+    return tree
+
+
+class _Translation(str):
+    """a gene translation of symbolic length: slices of it (domain translations) are a fixed text (outside the claim)"""
+    def __getitem__(self, _key):
+        return "MAG"
+
+
+class NrpsPksReuse(Harness):
+    """NRPS/PKS domain results: generate_domains (hmmscan calls stubbed with symbolic hits) -> JSON -> from_json on a fresh copy of
+    the record -> JSON, and the domains / motifs / modules / gene qualifiers each adds to its record"""
+    pid, name = "C11", "nrps_pks_domains"
+    DI = "antismash.detection.nrps_pks_domains.domain_identification:"
+    functions = [DI + "generate_domains", DI + "NRPSPKSDomains.to_json", DI + "NRPSPKSDomains.from_json", DI + "NRPSPKSDomains.add_to_record",
+                 DI + "CDSResult.to_json", DI + "CDSResult.from_json", DI + "CDSResult.annotate_domains",
+                 DI + "generate_domain_features", DI + "generate_motif_features",
+                 "antismash.detection.nrps_pks_domains.module_identification:build_modules_for_cds",
+                 "antismash.detection.nrps_pks_domains.module_identification:combine_modules",
+                 "antismash.detection.nrps_pks_domains.module_identification:Module.to_json",
+                 "antismash.detection.nrps_pks_domains.module_identification:Module.from_json",
+                 "antismash.common.secmet.features.feature:Feature.get_sub_location_from_protein_coordinates",
+                 "antismash.common.secmet.record:Record.add_module", "antismash.common.secmet.record:Record.connect_locations"]
+    bound = ("a region with one or two genes (same or opposite strands; symbolic locations, the first optionally of two exons) carrying "
+             "fixed domain architectures (PKS KS-AT-ACP in one gene; KS-AT | ACP-KR split over two genes and merged; NRPS C-A-PCP-TE; a "
+             "lone domain; two loader-only modules) at symbolic, ordered protein coordinates, plus a motif hit; schema version and record id of the saved results "
+             "symbolic")
+    outside = "hmmscan / hmmpfam2 runs (stubbed: they return the symbolic hits); KS subtype searches; domain translations; domain names"
+    stubs = ["find_domains / find_subtypes / find_ab_motifs / get_fasta_from_features / get_database_path return the harness's hits (external HMMER calls and database files)",
+             "gene translations are a carrier whose slices are a fixed text"]
+    task_paths = 150
+    ARCH = {"pks": [["PKS_KS", "PKS_AT", "ACP"]],
+            "split": [["PKS_KS", "PKS_AT"], ["ACP", "PKS_KR"]],
+            "nrps": [["Condensation_LCL", "AMP-binding", "PCP", "Thioesterase"]],
+            "lone": [["PKS_KR"], ["PCP"]],
+            "loaders": [["PKS_AT", "ACP", "PKS_AT", "ACP"]]}      # a loader-only module is complete only as the first of its gene
+
+    def variants(self, tier):
+        out = []
+        for arch in ("pks", "split", "nrps", "lone", "loaders"):
+            for strands in ((1, 1), (-1, -1), (1, -1)):
+                if len(self.ARCH[arch]) == 1 and strands[0] != strands[1]:
+                    continue
+                for shape in (("s",) if tier == "quick" else ("s", "j2")):
+                    if tier == "quick" and arch in ("nrps", "lone", "loaders") and strands[0] == -1:
+                        continue
+                    out.append({"arch": arch, "strands": list(strands), "shape": shape})
+        return out
+
+    def vars(self, var):
+        d = {"n": "int", "schema": "int", "same_record": "bool"}
+        for g, names in enumerate(self.ARCH[var["arch"]]):
+            d.update(shape_vars("g%d" % g, var["shape"] if g == 0 else "s"))
+            for i in range(len(names)):
+                d["s%d%d" % (g, i)] = "int"
+                d["e%d%d" % (g, i)] = "int"
+        d["ms"] = "int"
+        d["me"] = "int"
+        return d
+
+    def pre(self, var, v):
+        n = v["n"]
+        c = [0 <= v["schema"], v["schema"] <= 5]
+        arch = self.ARCH[var["arch"]]
+        for g, names in enumerate(arch):
+            shape = var["shape"] if g == 0 else "s"
+            parts = model_parts("g%d" % g, shape, v)
+            total = L.Sum([p[1] - p[0] for p in parts])
+            c.append(shape_pre("g%d" % g, shape, v, n))
+            if shape == "j2":
+                c.append(v["g0e0"] < v["g0s1"])
+            # domains in order, inside the protein (3 bases per residue, a stop codon at the end)
+            prev = 0
+            for i in range(len(names)):
+                c += [prev <= v["s%d%d" % (g, i)], v["s%d%d" % (g, i)] < v["e%d%d" % (g, i)]]
+                prev = v["e%d%d" % (g, i)]
+            c.append(3 * prev + 3 <= total)
+        c += [0 <= v["ms"], v["ms"] < v["me"], 3 * v["me"] + 3 <= L.Sum([p[1] - p[0] for p in model_parts("g0", var["shape"], v)])]
+        if len(arch) == 2:
+            c.append(v["g0e%d" % (1 if var["shape"] == "j2" else 0)] <= v["g1s0"])
+        return L.And(c)
+
+    def make_record(self, var, v, rec_id):
+        n = v["n"]
+        rec = mkrecord(n, False)
+        rec.id = rec_id
+        for g in range(len(self.ARCH[var["arch"]])):
+            shape = var["shape"] if g == 0 else "s"
+            cds = DummyCDS(location=build("g%d" % g, shape, v, var["strands"][g]), locus_tag="gene%d" % g, translation="MAGIC")
+            cds._translation = _Translation("MAGIC")
+            rec.add_cds_feature(cds)
+        from antismash.common.secmet.locations import FeatureLocation
+        rec.add_protocluster(Protocluster(FeatureLocation(0, n, 1), FeatureLocation(0, n, 1), tool="test", product="T1PKS", cutoff=20,
+                                          neighbourhood_range=0, detection_rule="rule"))
+        rec.create_candidate_clusters()
+        rec.create_regions()
+        return rec
+
+    def run(self, var, v):
+        from antismash.common.hmmscan_refinement import HMMResult
+        from antismash.detection.nrps_pks_domains import domain_identification as di
+        from .c10 import internal
+        hits, motifs = {}, {}
+        for g, names in enumerate(self.ARCH[var["arch"]]):
+            hits["gene%d" % g] = [HMMResult(name, v["s%d%d" % (g, i)], v["e%d%d" % (g, i)], 1e-20, 150.5) for i, name in enumerate(names)]
+        motifs["gene0"] = [HMMResult("C1_dual", v["ms"], v["me"], 1e-05, 12.5)]
+        saved_funcs = (di.get_fasta_from_features, di.find_domains, di.find_subtypes, di.find_ab_motifs, di.get_database_path)
+        di.get_database_path = lambda subdir, filename: filename
+        di.get_fasta_from_features = lambda features: ""
+        di.find_domains = lambda fasta, record: {k: list(val) for k, val in hits.items()}
+        di.find_subtypes = lambda *args, **kwargs: {}
+        di.find_ab_motifs = lambda fasta: {k: list(val) for k, val in motifs.items()}
+        try:
+            rec1 = self.make_record(var, v, "rec")
+            original = di.generate_domains(rec1)
+        finally:
+            di.get_fasta_from_features, di.find_domains, di.find_subtypes, di.find_ab_motifs, di.get_database_path = saved_funcs
+        saved = original.to_json()
+        stored = tree_copy(saved)
+        stored["schema_version"] = v["schema"]
+        rec2 = self.make_record(var, v, "rec" if v["same_record"] else "other")
+        reloaded = di.NRPSPKSDomains.from_json(stored, rec2)
+        if reloaded is None:
+            return {"reused": False}
+        again = reloaded.to_json()
+        original.add_to_record(rec1)
+        reloaded.add_to_record(rec2)
+        return {"reused": True, "saved": _floats_as_text(saved), "again": _floats_as_text(again), "first": internal(rec1),
+                "second": internal(rec2), "modules": len(rec1.get_modules())}
+
+    def post(self, var, v, out):
+        if is_raised(out):
+            return [("no_raise", False)]
+        from antismash.detection.nrps_pks_domains.domain_identification import NRPSPKSDomains
+        usable = L.And(v["schema"] == NRPSPKSDomains.schema_version, v["same_record"])
+        cl = [("other_schema_or_record_is_discarded", L.Iff(usable, out["reused"]))]
+        if out["reused"]:
+            from .c10 import same_summary
+            first = {k: val for k, val in out["first"].items() if not k.startswith("area")}
+            second = {k: val for k, val in out["second"].items() if not k.startswith("area")}
+            cl += [("saved_again_is_identical", tree_equal(out["saved"], out["again"])),
+                   ("same_features_and_gene_annotations_added", same_summary({"x": first}, {"x": second}))]
+        return cl
+
+    def klass(self, var, out):
+        if is_raised(out):
+            return "raised:" + out.etype
+        return "reused:%s" % (out.get("modules") if out["reused"] else "no")
+
+    def expected_classes(self, var):
+        # vacuity: results are discarded on some paths and reused on others, with the module count the architecture implies
+        return {"reused:no", "reused:%d" % {"pks": 1, "split": 1, "nrps": 1, "lone": 0, "loaders": 2}[var["arch"]]}
+
+
+HARNESSES = [RuleResults(), TTAReuse(), HmmerReuse(), ModuleReload(), SideloadReuse(), NrpsPksReuse()]
